@@ -58,6 +58,8 @@ pub fn gen_cfg(prop: &str, rng: &mut Rng) -> GenCfg {
             c.kinds = vec![(Kind::Plain, 6), (Kind::Lru, 2), (Kind::NoEq, 1)];
             c.untracked = true;
             c.durabilities = true;
+            // fields that start MEDIUM/HIGH: functions become untracked (and LOW) only later
+            c.dur_profile = rng.chance(1, 2);
             c.lru_steps = rng.chance(1, 3);
             c.vmod = 3;
         }
@@ -111,7 +113,9 @@ pub fn gen_cfg(prop: &str, rng: &mut Rng) -> GenCfg {
             c.neutral_acc = true;
             c.durabilities = rng.chance(1, 2);
             c.never = rng.chance(1, 4);
-            c.makers = rng.chance(1, 3);
+            c.makers = rng.chance(1, 2);
+            // creators that also specify store their edges in the wide layout
+            c.specify = c.makers && rng.chance(2, 3);
             c.vmod = 3;
         }
         _ => {}
@@ -123,7 +127,30 @@ pub fn acyclic_case(o: &Opts, case_seed: u64) -> CaseReport {
     let mut rng = Rng::new(case_seed);
     let cfg = gen_cfg(&o.prop, &mut rng);
     let prog = gen_prog(&mut rng, &cfg);
-    let hist = gen_history(&mut rng, &cfg, &prog);
+    let mut hist = gen_history(&mut rng, &cfg, &prog);
+    if o.prop == "C10" && rng.chance(2, 3) {
+        // directed tail: two single-input writes, each followed by a request of every node, so that
+        // "an input only the specified function's body reads changes and readers are re-verified,
+        // then the creator stops specifying" (and its mirror images) occur regularly
+        let all = |h: &mut Vec<Step>| {
+            for n in 0..prog.nodes.len() {
+                h.push(Step::Req(match prog.nodes[n].kind {
+                    Kind::Multi => Req::Multi(n, 0),
+                    _ => Req::Node(n),
+                }));
+            }
+        };
+        all(&mut hist);
+        for _ in 0..rng.range(2, 4) {
+            hist.push(Step::Set {
+                cell: rng.below(prog.ncells),
+                field: rng.below(2),
+                val: rng.below(cfg.vmod as usize) as u16,
+                dur: None,
+            });
+            all(&mut hist);
+        }
+    }
     run_history(o, &cfg, &prog, &hist, case_seed)
 }
 
@@ -226,6 +253,9 @@ pub fn run_history(o: &Opts, _cfg: &GenCfg, prog: &Prog, hist: &[Step], case_see
     let mut rep = CaseReport::new();
     rep.sample = format!("PROG {prog} HISTORY {}", fmt_history(hist));
     rep.sig = hash_str(&rep.sample);
+    // a third of the C06/C07 cases run with colliding identity hashes
+    let collide = matches!(o.prop.as_str(), "C06" | "C07") && case_seed % 3 == 0 && !o.retain;
+    crate::world::COLLIDE.store(collide, std::sync::atomic::Ordering::Relaxed);
     let mut runner = Runner::new(prog, true);
     runner
         .ctx
@@ -370,6 +400,12 @@ pub fn run_history(o: &Opts, _cfg: &GenCfg, prog: &Prog, hist: &[Step], case_see
             rep.violations.extend(v);
             rep.counts.merge(&c);
         }
+        "C06" | "C07" if collide => {
+            let (v, c) = crate::mon_misc::check_id_functional(&log);
+            rep.violations.extend(v);
+            rep.counts.merge(&c);
+            rep.counts.inc("colliding_hash_cases");
+        }
         "C06" | "C07" => {
             let (v, c) = crate::mon_misc::check_identity(prog, &log, &runner.ctx);
             rep.violations.extend(v);
@@ -419,7 +455,7 @@ pub fn run_history(o: &Opts, _cfg: &GenCfg, prog: &Prog, hist: &[Step], case_see
         "C03" => s.get("ev_validate") > 0 && s.get("justified") > 0 && s.get("equal_reexec") > 0,
         "C04" => s.get("untracked_reexec") > 0,
         "C05" => s.get("lru_eviction_points") > 0 && s.get("lru_evicted") > 0,
-        "C06" => s.get("identity_preserved") > 0 && s.get("ev_did_discard") > 0,
+        "C06" => (s.get("identity_preserved") > 0 || s.get("colliding_identity_kept") > 0) && s.get("ev_did_discard") > 0,
         "C07" => s.get("ev_reuse_interned") > 0 || s.get("tracked_slot_reuse") > 0,
         "C09" => s.get("ev_reuse_interned") > 0 || s.get("interned_survivals") > 0,
         "C08" => s.get("interned_identity_kept") > 0 && s.get("ev_reuse_interned") > 0,
@@ -1286,14 +1322,14 @@ pub fn classify_cyc_mismatch(
             }
             // cycle_initial of an enclosing execution consumed inside e
             let mut heads: Vec<usize> = Vec::new();
-            for (clk, _, r) in cur {
-                if *clk > e.start && *clk < e.end {
+            for (clk, th, r) in cur {
+                if *clk > e.start && *clk < e.end && *th == e.th {
                     if let Rec::CycleInitial(h) = r {
                         // h is executing around e, or is being verified around e (no execution of
                         // h starts inside e: that would be an inner cycle iterated within e)
                         let inner = execs_cur
                             .iter()
-                            .any(|o| o.act.node as usize == *h && o.start > e.start && o.start < e.end);
+                            .any(|o| o.th == e.th && o.act.node as usize == *h && o.start > e.start && o.start < e.end);
                         if !inner && *h != m {
                             heads.push(*h);
                         }
@@ -1304,9 +1340,13 @@ pub fn classify_cyc_mismatch(
             for (clk, it) in &e.items {
                 if let mon::Item::Read(ReadK::Call(_, h, _), _) = it {
                     let h = *h as usize;
-                    let enclosing = execs_cur
-                        .iter()
-                        .any(|o| o.act.node as usize == h && o.start < e.start && o.start < *clk && (o.end == 0 || o.end > e.end));
+                    let enclosing = execs_cur.iter().any(|o| {
+                        o.th == e.th
+                            && o.act.node as usize == h
+                            && o.start < e.start
+                            && o.start < *clk
+                            && (o.end == 0 || o.end > e.end)
+                    });
                     if enclosing && h != m {
                         heads.push(h);
                     }
